@@ -290,6 +290,20 @@ func (p *Prog) Roles() *Roles {
 			})
 		}
 	}
+	// enqueue helper (the select extracted into its own function): the CAS is in its callers
+	if len(inEnq) == 0 {
+		for _, e := range r.Enqueuers {
+			for _, fn := range p.Funcs {
+				AllInstrs(fn, func(in ssa.Instruction) {
+					if cc := CallCommon(in); cc != nil && !cc.IsInvoke() && cc.StaticCallee() == e {
+						for f := range casIn(Outermost(fn)) {
+							inEnq[f] = true
+						}
+					}
+				})
+			}
+		}
+	}
 	for _, f := range int32s {
 		if inEnq[f] {
 			r.Running = pick(r, "running", r.Running, f)
